@@ -609,7 +609,11 @@ func (e *Exec) obligation(id string, c *Term, fr *Frame) {
 			e.Samples = append(e.Samples, map[string]interface{}{"harness": e.harness, "assert": id, "verdict": "unsat", "negated_property": truncStr(nc.SMT(), 600), "path_decisions": len(e.trace)})
 		}
 	case Sat:
-		e.recordFailure("assert", id, e.siteOf(fr), "assertion "+id+" can fail", "", nc)
+		msg := "assertion " + id + " can fail"
+		if c, ok := e.pathAux["conflict"].(string); ok {
+			msg += ": " + c
+		}
+		e.recordFailure("assert", id, e.siteOf(fr), msg, "", nc)
 	default:
 		e.Inconclusive = append(e.Inconclusive, fmt.Sprintf("%s: %s: solver answered unknown", e.harness, id))
 	}
@@ -1005,6 +1009,7 @@ func (e *Exec) run(fr *Frame) Value {
 		}
 		for _, ins := range blk.Instrs[nphi:] {
 			e.steps++
+			e.frame = fr
 			if progress && e.steps%200000 == 0 {
 				fmt.Fprintf(os.Stderr, "[steps=%d in %s trace=%d cursor=%d queries=%d]\n", e.steps, fr.fn, len(e.trace), e.cursor, e.sol.Queries)
 			}
@@ -1122,7 +1127,9 @@ func (e *Exec) exec(fr *Frame, ins ssa.Instruction) {
 	case *ssa.DebugRef:
 	case *ssa.Alloc:
 		et := x.Type().(*types.Pointer).Elem()
-		fr.env[x] = Ptr{Obj: e.newObj(e.zero(et), et)}
+		o := e.newObj(e.zero(et), et)
+		o.Name = x.Comment + " in " + shortFn(fr.fn)
+		fr.env[x] = Ptr{Obj: o}
 	case *ssa.BinOp:
 		fr.env[x] = e.binop(fr, x, x.Op, e.eval(fr, x.X), e.eval(fr, x.Y), x.X.Type())
 	case *ssa.UnOp:
